@@ -214,3 +214,36 @@ Fixpoint nodup_b (l : list name) : bool :=
   match l with [] => true | x :: r => negb (mem x r) && nodup_b r end.
 Definition interfaces_declared_once (S : schema) : bool :=
   forallb (fun t => match snd t with NObject _ ifs _ _ => nodup_b ifs | _ => true end) (types S).
+
+(** ** what schema.New guarantees about references and gating (shallowValidate), as far as the
+    resolution of type references needs it *)
+Definition req_of (S : schema) (n : name) : features :=
+  match lookup n (types S) with Some t => nt_req t | None => [] end.
+
+(** every named type mentioned anywhere is defined (Go pointers cannot dangle) *)
+Definition refs_defined (S : schema) : bool :=
+  forallb (fun t => forallb (defined S) (mentions (snd t))) (types S) && forallb (defined S) (entry_points S).
+
+(** object_type.go:123-135, interface_type.go:74-86: the type of a field and of its arguments
+    requires no more than the field and its parent together; input_object_type.go:150-152: an
+    input field's type requires no more than the input object; union_type.go:55-57: a member
+    requires no more than the union *)
+Definition field_gating_ok (S : schema) (parent : features) (f : name * field_def) : bool :=
+  let ctx := (f_features (snd f) ++ parent)%list in
+  subset (req_of S (unwrap (f_type (snd f)))) ctx
+  && forallb (fun a => subset (req_of S (unwrap (in_type (snd a)))) ctx) (f_args (snd f)).
+Definition type_gating_ok (S : schema) (t : named_type) : bool :=
+  match t with
+  | NObject fs _ r _ | NInterface fs r _ => forallb (field_gating_ok S r) fs
+  | NInput fs r _ _ => forallb (fun a => subset (req_of S (unwrap (in_type (snd a)))) r) fs
+  | NUnion ms r _ => forallb (fun m => subset (req_of S m) r) ms
+  | _ => true
+  end.
+Definition gating_nested (S : schema) : bool := forallb (fun t => type_gating_ok S (snd t)) (types S).
+
+(** not checked by schema.New, true of every sensible configuration: the root operation types and
+    the types of directive arguments are visible to the request *)
+Definition roots_visible (S : schema) (F : features) : bool :=
+  visible_type S F (query S)
+  && forallb (visible_type S F) (opt_list (mutation S) ++ opt_list (subscription S))
+  && forallb (fun d => forallb (fun a => visible_type S F (unwrap (in_type (snd a)))) (dd_args (snd d))) (directives S).
